@@ -69,8 +69,10 @@ pub fn parse_dxtn<'a>(
         // DXT stores whole 4x4 blocks per row and column, so the block count is the
         // product of the rounded-up sides, not the rounded-up pixel count / 16.
         let (width, height) = blp_header.mipmap_size(i);
-        let blocks_n = width.div_ceil(4) as usize * height.div_ceil(4) as usize;
-        let mut blocks_size = blocks_n * dxtn.block_size();
+        // The dimensions come from the header: saturate, anything that large is
+        // handled as "data is smaller than expected" below.
+        let blocks_n = (width.div_ceil(4) as usize).saturating_mul(height.div_ceil(4) as usize);
+        let mut blocks_size = blocks_n.saturating_mul(dxtn.block_size());
         trace!("Dxtn blocks count: {blocks_n}");
         trace!("Dxtn format: {dxtn:?}, block size: {}", dxtn.block_size());
         trace!(
